@@ -106,7 +106,8 @@ def run_tlc(module, cfg_path, tag, workers=1, timeout=600, env_extra=None, heap=
     _tlc_counter[0] += 1
     meta = os.path.join(OUT, "tlc", f"{tag}-{os.getpid()}-{_tlc_counter[0]}")
     os.makedirs(meta, exist_ok=True)
-    cmd = ["java", "-Xss1g", f"-Xmx{heap}", "-XX:+UseParallelGC"]
+    cmd = ["java", "-Xss1g", f"-Xmx{heap}"]
+    cmd += ["-XX:+UseSerialGC", "-XX:CICompilerCount=2"] if workers <= 2 else ["-XX:+UseParallelGC"]
     if deque:
         cmd.append("-Dtlc2.tool.queue.IStateQueue=StateDeque")
     cmd += ["-cp", JAR, "tlc2.TLC", "-workers", str(workers), "-metadir", meta, "-cleanup",
